@@ -31,6 +31,7 @@ func init() {
 		ruleFoldExaminesAll(c, "R04g")
 		ruleInMemoryIdentityLookups(c, "R04h")
 		ruleLastElementOfSameSlice(c, "R04i")
+		ruleLastMeansLast(c, "R04j")
 	})
 }
 
